@@ -145,6 +145,10 @@ func runProperty(id string, _ *Program, get func(i int) (*Program, *ModAnalysis)
 		r.count("ssa_blocks", p.NBlocks)
 		r.count("ssa_instructions", p.NInstr)
 		r.count("call_sites", p.NCalls)
+		c.resolveDenseRoles()
+		if dr.err != "" {
+			r.undecided(id, "anchor/dense-roles", "", "", "field roles of the dense store resolve", dr.err)
+		}
 		pr.run(c)
 		if first == nil {
 			first = r
